@@ -17,6 +17,7 @@ import StimModel.Model.Text
 import StimModel.Model.DemText
 import StimModel.Model.Record
 import StimModel.Model.Amps
+import StimModel.Model.XorVec
 /-! Line-protocol dispatcher: one request line in, one answer line out. -/
 namespace Stim.Driver
 open Stim Stim.Wire
@@ -688,6 +689,19 @@ def ampsCmd (toks : List String) : String :=
           | some x => "expectation-differs-for " ++ x.2.2.str
           | none => if fixed != 2^n then s!"state-entangled-with-hidden-qubits fixed={fixed}" else "ok")
      | _, _ => "bad-request")
+  | _ => "bad-request"
+
+def natList (s : String) : List Nat := if s == "-" then [] else (s.splitOn ",").filterMap String.toNat?
+def natListStr (l : List Nat) : String := if l.isEmpty then "-" else String.intercalate "," (l.map toString)
+
+open Stim.XorVec in
+/-- `xorvec merge <a> <b>` | `xorvec items <l> <x1,x2,..>` | `xorvec sort <l>` | `xorvec subset <a> <b>` — lists are comma separated, `-` = empty -/
+def xorvecCmd (toks : List String) : String :=
+  match toks with
+  | ["merge", a, b] => natListStr (xorMerge (natList a) (natList b))
+  | ["items", l, xs] => natListStr ((natList xs).foldl (fun acc x => xorItem x acc) (natList l))
+  | ["sort", l] => natListStr (xorSort (natList l))
+  | ["subset", a, b] => if isSubsetSorted (natList a) (natList b) then "1" else "0"
   | _ => "bad-request"
 
 def xorClosure (vs : List (List Bool)) : List (List Bool) :=
@@ -1562,6 +1576,7 @@ def answer (toks : List String) : String :=
   | "fsim" :: "dets" :: rest => fsimDets rest
   | "record" :: "run" :: rest => recordRun rest
   | "amps" :: rest => ampsCmd rest
+  | "xorvec" :: rest => xorvecCmd rest
   | "demsem" :: "check" :: rest => demsemCheck rest
   | "demsem" :: "decomp" :: rest => demsemDecomp rest
   | "demsample" :: "check" :: rest => demsampleCheck rest
